@@ -422,6 +422,12 @@ pub fn run(tier: Tier, replay: Option<Value>) -> i32 {
     run.sample(|| json!({"order_paths": [&p4[3], &p4[17], &p7[30]]}));
     check_order_exhaustive(&run, "a4", &p4);
     check_order_exhaustive(&run, "a7", &p7);
+    if tier == Tier::Thorough {
+        // a larger alphabet with more bytes around '/': ' ' '-' '.' below it, '0' 'a' '~' 'é' above
+        let a6 = [" ", "-.", "a", "a-", "a0", "é"];
+        let p6 = enumerate_valid_paths(&a6, 4);
+        check_order_exhaustive(&run, "a6", &p6);
+    }
     check_random_pairs(&run, tier.pick(300_000, 3_000_000));
     check_emitters(&run, tier.pick(400, 6000));
     run.finish(
